@@ -12,7 +12,7 @@ package layer4
 //@   && istype(ctxval(cx.Context, VarsCtxKey), map[string]any) && ctxval(cx.Context, VarsCtxKey).(map[string]any) != nil
 
 // wfm: the connection as a matcher sees it (frozen: reads are served from the buffer only).
-//@ pred wfm(cx *Connection) = wfcx(cx) && cx.matching
+//@ pred wfm(cx *Connection) = wfcx(cx) && wf(cx) && cx.matching
 //@ ghostfn avail(cx *Connection) int = len(cx.buf) - cx.offset
 
 // Abstract view (C01): a Connection is a net.Conn over the stream of its inner conn. The buffer
@@ -39,9 +39,10 @@ package layer4
 //@ ensures[C01] forall k int :: 0 <= k && k < n ==> p[k] == rstream(cx.Conn)[old(vpos(cx)) + k]
 //@ ensures[C01] vpos(cx) == old(vpos(cx)) + n
 //@ ensures[C01] cx.matching == old(cx.matching) && cx.frozenOffset == old(cx.frozenOffset) && cx.Conn == old(cx.Conn)
-//@ ensures[C06] old(cx.matching) ==> rpos(cx.Conn) == old(rpos(cx.Conn)) && sameslice(cx.buf, old(cx.buf)) && bytes(cx.buf) == old(bytes(cx.buf))
+//@ ensures[C06] old(cx.matching) ==> rpos(cx.Conn) == old(rpos(cx.Conn)) && sameslice(cx.buf, old(cx.buf)) && bytes(cx.buf) == old(bytes(cx.buf)) && cx.bytesRead == old(cx.bytesRead)
 //@ ensures[C06] old(cx.matching) && old(cx.offset) == old(len(cx.buf)) ==> n == 0 && err == ErrConsumedAllPrefetchedBytes
 //@ ensures[C06] old(cx.offset) < old(len(cx.buf)) ==> err == nil && n == min(len(p), old(len(cx.buf) - cx.offset))
+//@ ensures[C06] old(cx.offset) < old(len(cx.buf)) ==> forall k int :: 0 <= k && k < n ==> p[k] == old(cx.buf[cx.offset + k])
 //@ ensures[C01] old(cx.offset) < old(len(cx.buf)) ==> rpos(cx.Conn) == old(rpos(cx.Conn))
 
 //@ func (cx *Connection) Write(p []byte) (n int, err error)
@@ -111,8 +112,47 @@ package layer4
 //@ invariant rangeindex >= 0 ==> !cx.matching
 //@ invariant rangeindex < 0 ==> cx.matching == old(cx.matching)
 //@ invariant rangeindex < 0 ==> err == nil
-//@ ensures[C01] wfcx(cx) && wf(cx) && vpos(cx) == old(vpos(cx))
+//@ invariant cx.offset == old(cx.offset)
+//@ invariant rangeindex < 0 ==> cx.frozenOffset == old(cx.frozenOffset)
+//@ invariant rangeindex >= 0 ==> cx.frozenOffset == old(cx.offset)
+//@ ensures[C01] wfcx(cx) && wf(cx) && vpos(cx) == old(vpos(cx)) && cx.offset == old(cx.offset)
+//@ ensures[C01] len(mset) > 0 ==> cx.frozenOffset == old(cx.offset)
+//@ ensures[C01] len(mset) == 0 ==> cx.frozenOffset == old(cx.frozenOffset)
 //@ ensures[C01] len(mset) > 0 ==> !cx.matching
 //@ ensures[C01] len(mset) == 0 ==> cx.matching == old(cx.matching)
 //@ ensures[C02] len(mset) == 0 ==> matched && err == nil
 //@ ensures[C02] err != nil ==> len(mset) > 0
+
+//@ pred validset(ms MatcherSet) = forall j int :: 0 <= j && j < len(ms) ==> ms[j] != nil
+//@ pred validsets(mss MatcherSets) = forall i int :: 0 <= i && i < len(mss) ==> validset(mss[i])
+
+//@ func (mss *MatcherSets) AnyMatch(cx *Connection) (matched bool, err error)
+//@ requires mss != nil && validsets(*mss)
+//@ requires wfcx(cx) && wf(cx) && (cx.matching ==> cx.offset == cx.frozenOffset)
+//@ safety C04
+//@ assigns[C06] cx.offset, cx.matching, cx.frozenOffset
+//@ modifies map:string:iface.has, map:string:iface.len, map:string:iface.val.tag, map:string:iface.val.data
+//@ invariant wfcx(cx) && wf(cx) && (cx.matching ==> cx.offset == cx.frozenOffset)
+//@ invariant vpos(cx) == old(vpos(cx))
+//@ invariant rangeindex < 0 ==> cx.matching == old(cx.matching)
+//@ invariant rangeindex < 0 ==> err == nil
+//@ invariant !old(cx.matching) ==> !cx.matching
+//@ ensures[C01] wfcx(cx) && wf(cx) && vpos(cx) == old(vpos(cx))
+//@ ensures[C01] !old(cx.matching) ==> !cx.matching
+//@ ensures[C02] len(*mss) == 0 ==> matched && err == nil
+
+//@ func (m *MatchNot) Match(r *Connection) (matched bool, err error)
+//@ requires[inv] validsets(m.MatcherSets)
+//@ safety C04
+//@ implements[C06] (m github.com/mholt/caddy-l4/layer4.ConnMatcher) Match
+//@ invariant wfcx(r) && wf(r) && (r.matching ==> r.offset == r.frozenOffset) && r.frozenOffset == old(r.frozenOffset)
+//@ invariant vpos(r) == old(vpos(r))
+//@ ensures[C02] err != nil ==> !matched
+
+//@ func WrapConnection(underlying net.Conn, buf []byte, logger *zap.Logger) *Connection
+//@ requires underlying != nil && logger != nil && len(buf) == 0 && !inpool(arr(buf))
+//@ requires 0 <= rpos(underlying) && rpos(underlying) < 4611686018427387904
+//@ safety C04
+//@ assigns[C01] nothing
+//@ ensures[C01] result != nil && fresh(result) && result.Conn == underlying && sameslice(result.buf, buf) && result.offset == 0 && !result.matching
+//@ ensures[C01] wfcx(result) && wf(result) && vpos(result) == rpos(underlying)
